@@ -128,6 +128,12 @@ func runC19(c *Ctx) {
 
 	c.Rule("R19h", ruleTextExcludeScope, 1)
 	checkExcludeScope(c, "R19h")
+	c.Rule("R19k", ruleTextExtendReturns, 1)
+	checkExtendReturns(c, "R19k")
+	c.Rule("R19l", ruleTextSelectorSeparator, 1)
+	checkSelectorSeparator(c, "R19l")
+	c.Rule("R19j", ruleTextExcludeByParts, 1)
+	checkExcludeByParts(c, "R19j")
 	c.Rule("R19i", ruleTextSkipAccumulates, 1)
 	checkSkipAccumulates(c, "R19i")
 
